@@ -198,3 +198,25 @@ func VerifHarness_C15_flight() {
 	}
 	verifAssert("C15.flight.nothingLost", sum == total)
 }
+
+// C15 — the receive side can take everything the send side may legally emit: for every PMTU (also above the
+// record limit) and every payload length up to the maximum payload, the datagram the real write path produces
+// is no longer than the buffer the real readDatagram offers to the transport.
+//
+//verif:harness props=C15 paths=2000 reach=done
+func VerifHarness_C15_receive_capacity() {
+	pmtu := verifNondetInt("pmtu")
+	verifAssume(pmtu == 0 || (pmtu >= 96 && pmtu <= 40000))
+	kind := verifSplitInt("cipher", 0, 2)
+	st := &verifPConn{}
+	s := newSizeConn(st, pmtu, kind)
+	mp := s.maxPayloadSizeForWrite(recordTypeApplicationData)
+	n := verifNondetInt("len")
+	verifAssume(n >= 1 && n <= mp)
+	s.writeRecordLocked(recordTypeApplicationData, verifNondetBytes("data", n))
+	rt := &verifPConn{}
+	r := newSizeConn(rt, pmtu, kind)
+	_ = r.readDatagram()
+	verifAssert("C15.receive.bufferHoldsLargestDatagram", len(st.sent) == 1 && rt.offered >= len(st.sent[0]))
+	verifReach("done")
+}
